@@ -666,12 +666,14 @@ class SimOS(object):
         self.stat = fs.stat
         self.lstat = fs.stat
         self.environ = {}
+        # the process that is running right now (the simulator switches it, see c18.Procs)
+        self.pid = 4242
 
     def getcwd(self):
         return self._fs.CWD
 
     def getpid(self):
-        return 4242
+        return self.pid
 
     def fspath(self, p):
         return p
